@@ -14,7 +14,8 @@ Transcribed (snapshot ef0888e + the `fix:` commits listed in findings/C06.txt):
   state `σ` (what `NewGroup` creates). `current` is modelled as the current group's id (Go keeps the receiver
   pointer; the two differ only on ill-formed streams with a `DeleteGroup` inside an unbuffered batch).
 * Concrete receivers used for the correspondence (each transcribed from its `*Group` type):
-  sample (`sampleGroup`), stateCount (`stateTrackingGroup` + `stateCountTracker`), where / eval with the
+  sample (`sampleGroup`), stateCount / stateDuration (`stateTrackingGroup` + trackers), changeDetect, derivative,
+  windowByCount (list level), alert with threshold levels (`determineLevel` without resets, stateChangesOnly), where / eval with the
   stateful `count()` (per-group `CopyReset`), the alert node restricted to `.crit(lambda: P(count()))`
   (`determineLevel`, `findFirstMatchLevel`, `alertState.Point` without flapping/stateChangesOnly), and the
   stream side of `InfluxQLNode` for `sum` / `count` including the NODE-WIDE `currentKind/createFn` cache
@@ -237,10 +238,28 @@ def pureNode {σ : Type} (init : σ) (onPoint : σ → Pt → σ × List Out) : 
 def sampleNode (n : Nat) : Node Unit Nat Pt Out :=
   pureNode 0 (fun cnt p => (cnt + 1, if cnt % n == 0 then [{ key := p.key, time := p.time, proj := "-" }] else []))
 
-/-- `lambda: "v" > T` on the field `v` (int only; anything else is an evaluation error here). -/
+/-- 16 lower-case hex digits of a float64 bit pattern (the wire format of floats) -/
+def hex16 (n : UInt64) : String :=
+  let ds := Nat.toDigits 16 n.toNat
+  String.ofList (List.replicate (16 - ds.length) '0' ++ ds)
+
+def parseHex (s : String) : UInt64 :=
+  UInt64.ofNat (s.toList.foldl (fun a c => a * 16 + (if c.isDigit then c.toNat - 48 else c.toNat - 87)) 0)
+
+def fbits (f : Float) : String := "f:" ++ hex16 f.toBits
+
+/-- `numToFloat` (derivative.go): int64 and float64 only. Lean `Float` is IEEE double like Go's float64. -/
+def Val.num? : Val → Option Float
+  | .int i => some (Float.ofInt i)
+  | .flt b => some (Float.ofBits (parseHex b))
+  | _ => none
+
+/-- `lambda: "v" > T` on the field `v`: int > int and float > int are comparisons, anything else (string, bool,
+missing field) is an evaluation error. -/
 def evalGt (v : Val) (t : Int) : Option Bool :=
   match v with
   | .int i => some (decide (i > t))
+  | .flt b => some (Float.ofBits (parseHex b) > Float.ofInt t)
   | _ => none
 
 /-- `stateTrackingGroup.Point` with `stateCountTracker`: evaluation error ⇒ the point is dropped and the tracker
@@ -259,6 +278,101 @@ def whereCountNode (m r : Nat) : Node Unit Nat Pt Out :=
 /-- `evalGroup` with `lambda: count()` `.as('o')`. -/
 def evalCountNode : Node Unit Nat Pt Out :=
   pureNode 0 (fun cnt p => (cnt + 1, [{ key := p.key, time := p.time, proj := s!"i:{cnt + 1}" }]))
+
+/-- `stateTrackingGroup.Point` with `stateDurationTracker` (unit 1s): `startTime` is per group; the zero `time.Time`
+means "not in the state" (no generated point has that time). -/
+def stateDurationNode (t : Int) : Node Unit (Option Int) Pt Out :=
+  pureNode none (fun start p =>
+    match evalGt p.v t with
+    | none => (start, [])
+    | some false => (none, [{ key := p.key, time := p.time, proj := fbits (-1.0) }])
+    | some true =>
+      let st := start.getD p.time
+      (some st, [{ key := p.key, time := p.time, proj := fbits (Float.ofInt (p.time - st) / 1e9) }]))
+
+/-- `changeDetectGroup.Point` for one field: a missing field is "no change"; values are compared as Go interfaces
+(type and value; NaN and -0.0 are not generated). -/
+def changeDetectNode : Node Unit (Option Val) Pt Out :=
+  pureNode none (fun prev p =>
+    match p.v with
+    | .missing => (prev, [])
+    | v => if prev == some v then (prev, []) else (some v, [{ key := p.key, time := p.time, proj := "-" }]))
+
+/-- `derivativeGroup.Point` + `DerivativeNode.derivative` (unit 1s, `.as('o')`): the previous point (value, time) is
+per group; a non-numeric field drops the point and keeps `previous`; first point / zero elapsed time / negative
+difference under `nonNegative` store without emitting. -/
+def derivativeNode (nonNeg : Bool) : Node Unit (Option (Float × Int)) Pt Out :=
+  pureNode none (fun prev p =>
+    match p.v.num? with
+    | none => (prev, [])
+    | some f1 =>
+      match prev with
+      | none => (some (f1, p.time), [])
+      | some (f0, t0) =>
+        let elapsed := Float.ofInt (p.time - t0)
+        if elapsed == 0 then (some (f1, p.time), [])
+        else
+          let diff := f1 - f0
+          if nonNeg && diff < 0 then (some (f1, p.time), [])
+          else (some (f1, p.time), [{ key := p.key, time := p.time, proj := fbits (diff / (elapsed / 1e9)) }]))
+
+/-- `windowByCount` at list level (the ring buffer itself is C03's subject): the last `period` points, `count`,
+`nextEmit`; a batch = the buffered points, stamped with the last point's time and the group of the FIRST point. -/
+structure WinC where
+  key : String
+  buf : List Int := []      -- times of the buffered points, oldest first
+  count : Nat := 0
+  nextEmit : Nat
+deriving Repr, Inhabited
+
+def winBatchProj (times : List Int) : String :=
+  s!"n:{times.length}" ++ String.join (times.map (fun t => s!"/{t}"))
+
+def windowCountNode (period every : Nat) (fill : Bool) : Node Unit WinC Pt Out :=
+  { newGroup := fun _ _ first => ((), { key := match first with | .point _ p => p.key | _ => "",
+                                        nextEmit := if fill then period else every }),
+    recv := fun _ w m => ((), match m with
+      | .point _ p =>
+        let buf := w.buf ++ [p.time]
+        let buf := if buf.length > period then buf.drop 1 else buf
+        let count := w.count + 1
+        if count == w.nextEmit then
+          ({ w with buf := buf, count := count, nextEmit := w.nextEmit + every },
+           [{ key := w.key, time := p.time, proj := winBatchProj buf }])
+        else ({ w with buf := buf, count := count }, [])
+      | _ => (w, [])) }
+
+def levelName (l : Nat) : String :=
+  match l with
+  | 0 => "s:OK" | 1 => "s:INFO" | 2 => "s:WARNING" | _ => "s:CRITICAL"
+
+/-! ### alert node with threshold levels `.info/.warn/.crit(lambda: "v" > T)` (stateless lambdas) -/
+
+/-- `findFirstMatchLevel(start, stop)`: from `start` down to `stop+1`; no expression ⇒ skip, evaluation error ⇒
+skip. `thr l` = the threshold of level `l`'s expression. -/
+def findFirstMatch (thr : Nat → Option Int) (v : Val) (start stop : Nat) : Option Nat :=
+  ((List.range (start - stop)).map (fun i => start - i)).find? (fun l =>
+    match thr l with
+    | none => false
+    | some t => evalGt v t == some true)
+
+/-- `determineLevel` without reset expressions. -/
+def determineLevelThr (thr : Nat → Option Int) (v : Val) (cur : Nat) : Nat :=
+  match findFirstMatch thr v 3 (cur - 1) with
+  | some l => l
+  | none =>
+    match findFirstMatch thr v cur 0 with
+    | some l => l
+    | none => 0
+
+/-- `alertState.Point` with optional `.stateChangesOnly()` (no duration): per-group state = current level. -/
+def alertThrNode (thr : Nat → Option Int) (sco : Bool) : Node Unit Nat Pt Out :=
+  pureNode 0 (fun cur p =>
+    let l := determineLevelThr thr p.v cur
+    let changed := cur != l
+    if sco && !changed then (l, [])
+    else if l != 0 || changed then (l, [{ key := p.key, time := p.time, proj := levelName l }])
+    else (l, []))
 
 /-! ### alert node restricted to `.crit(lambda: P(count()))` -/
 
@@ -282,10 +396,6 @@ def alertDetermine (pr : CountPred) (cnt : Nat) (cur : Nat) : Nat × Nat :=
     let c2 := c1 + 1
     if pr.eval c2 then (c2, 3) else (c2, 0)
   else (c1, 0)
-
-def levelName (l : Nat) : String :=
-  match l with
-  | 0 => "s:OK" | 1 => "s:INFO" | 2 => "s:WARNING" | _ => "s:CRITICAL"
 
 /-- `alertState.Point` without flapping / stateChangesOnly / noRecoveries: forward iff `l ≠ OK ∨ changed`. -/
 def alertEmit (cur l : Nat) (p : Pt) : List Out :=
